@@ -133,7 +133,7 @@ pub fn run(cx: &mut Ctx) {
     }
 
     // ---- observe
-    for n in 0..=300usize {
+    for n in (0..=70000usize).chain([1usize << 24, (1usize << 24) + 1, 1usize << 32, (1usize << 32) + 1, usize::MAX - 1, usize::MAX]) {
         let r = ObserveOption::try_from(n);
         let line = format!("TBL obsof {}", n);
         let (name, back) = match r {
